@@ -127,6 +127,16 @@ type walker struct {
 	// per-type caches
 	skipT  map[reflect.Type]bool
 	fields map[reflect.Type][]fieldPlan
+	names  map[reflect.Type]string
+}
+
+func (w *walker) typeName(t reflect.Type) string {
+	if n, ok := w.names[t]; ok {
+		return n
+	}
+	n := t.String()
+	w.names[t] = n
+	return n
 }
 
 type fieldPlan struct {
@@ -168,7 +178,7 @@ func Dump(v any) *Node { return (&Options{}).Dump(v) }
 
 // Dump renders v.
 func (o *Options) Dump(v any) *Node {
-	w := &walker{o: o.prepare(), path: map[uintptr]int{}, skipT: map[reflect.Type]bool{}, fields: map[reflect.Type][]fieldPlan{}}
+	w := &walker{o: o.prepare(), path: map[uintptr]int{}, skipT: map[reflect.Type]bool{}, fields: map[reflect.Type][]fieldPlan{}, names: map[reflect.Type]string{}}
 	if v == nil {
 		return &Node{Kind: KLeaf, Leaf: "nil"}
 	}
@@ -313,7 +323,7 @@ func (w *walker) walk(v reflect.Value, depth int) *Node {
 			return leaf(bi.String())
 		}
 		pl := w.plan(t)
-		out := &Node{Kind: KStruct, Names: make([]string, 0, len(pl)), Kids: make([]*Node, 0, len(pl))}
+		out := &Node{Kind: KStruct, Type: w.typeName(t), Names: make([]string, 0, len(pl)), Kids: make([]*Node, 0, len(pl))}
 		for _, f := range pl {
 			k := w.walk(v.Field(f.idx), depth+1)
 			if k == nil {
@@ -508,6 +518,86 @@ type Differ struct {
 type Diff struct {
 	Path string // concrete path, e.g. StateKeyFrame.ActivityProducers[02ab..].penalty
 	A, B string // rendering of the two sides ("<absent>" when missing)
+	// Owner is the Go type of the innermost struct on the path and Field the
+	// path below it (filled by OwnerOf; "" for non-struct roots).
+	Owner, Field string
+}
+
+// TypeSig returns Owner.Field generalised, e.g. payload.CRInfo.Signature or
+// state.StateKeyFrame.WithdrawableTxInfo[*]: one signature for a field of a
+// type wherever the value is embedded.
+func (d Diff) TypeSig() string {
+	if d.Owner == "" {
+		return d.Sig()
+	}
+	return d.Owner + "." + Generalize(d.Field)
+}
+
+// OwnerOf resolves path in root and returns the type of the innermost struct
+// node on it and the remaining path below that struct.
+func OwnerOf(root *Node, path string) (owner, field string) {
+	n := root
+	rest := path
+	owner, field = "", path
+	if n != nil && n.Kind == KStruct {
+		owner = n.Type
+	}
+	for n != nil && rest != "" {
+		var name string
+		switch {
+		case rest[0] == '.':
+			rest = rest[1:]
+			continue
+		case rest[0] == '[':
+			depth, i := 0, 0
+			for i = 0; i < len(rest); i++ {
+				if rest[i] == '[' {
+					depth++
+				} else if rest[i] == ']' {
+					depth--
+					if depth == 0 {
+						break
+					}
+				}
+			}
+			name = rest[1:i]
+			rest = rest[i+1:]
+			var next *Node
+			switch n.Kind {
+			case KMap:
+				for j, k := range n.Names {
+					if k == name {
+						next = n.Kids[j]
+					}
+				}
+			case KList:
+				if idx, err := strconv.Atoi(name); err == nil && idx < len(n.Kids) {
+					next = n.Kids[idx]
+				}
+			}
+			n = next
+		default:
+			i := strings.IndexAny(rest, ".[(")
+			if i < 0 {
+				i = len(rest)
+			}
+			name = rest[:i]
+			rest = rest[i:]
+			var next *Node
+			if n.Kind == KStruct {
+				for j, k := range n.Names {
+					if k == name {
+						next = n.Kids[j]
+					}
+				}
+			}
+			n = next
+		}
+		if n != nil && n.Kind == KStruct && rest != "" && rest != "(type)" {
+			owner, field = n.Type, strings.TrimPrefix(rest, ".")
+		}
+	}
+	return
 }
 
 // Sig returns the generalised path (map keys and indexes replaced by *).
@@ -571,21 +661,21 @@ func (d *Differ) diff(a, b *Node, path string, out *[]Diff, limit int) {
 		return
 	}
 	if a == nil || b == nil {
-		*out = append(*out, Diff{path, a.Short(200), b.Short(200)})
+		*out = append(*out, Diff{Path: path, A: a.Short(200), B: b.Short(200)})
 		return
 	}
 	if (a.TypeMatters || b.TypeMatters) && a.Type != b.Type {
-		*out = append(*out, Diff{path + "(type)", a.Type, b.Type})
+		*out = append(*out, Diff{Path: path + "(type)", A: a.Type, B: b.Type})
 		return
 	}
 	if a.Kind != b.Kind {
-		*out = append(*out, Diff{path, a.Short(200), b.Short(200)})
+		*out = append(*out, Diff{Path: path, A: a.Short(200), B: b.Short(200)})
 		return
 	}
 	switch a.Kind {
 	case KLeaf:
 		if a.Leaf != b.Leaf {
-			*out = append(*out, Diff{path, a.Leaf, b.Leaf})
+			*out = append(*out, Diff{Path: path, A: a.Leaf, B: b.Leaf})
 		}
 	case KStruct:
 		// same Go type => same field list unless fields were skipped as nil
@@ -602,13 +692,13 @@ func (d *Differ) diff(a, b *Node, path string, out *[]Diff, limit int) {
 			case i < len(a.Kids) && (j >= len(b.Kids) || !contains(b.Names[j:], a.Names[i])):
 				p := join(path, a.Names[i])
 				if !d.masked(p) {
-					*out = append(*out, Diff{p, a.Kids[i].Short(200), "<absent>"})
+					*out = append(*out, Diff{Path: p, A: a.Kids[i].Short(200), B: "<absent>"})
 				}
 				i++
 			default:
 				p := join(path, b.Names[j])
 				if !d.masked(p) {
-					*out = append(*out, Diff{p, "<absent>", b.Kids[j].Short(200)})
+					*out = append(*out, Diff{Path: p, A: "<absent>", B: b.Kids[j].Short(200)})
 				}
 				j++
 			}
@@ -628,9 +718,9 @@ func (d *Differ) diff(a, b *Node, path string, out *[]Diff, limit int) {
 			p := path + "[" + strconv.Itoa(n) + "]"
 			if !d.masked(p) {
 				if len(a.Kids) > n {
-					*out = append(*out, Diff{p, a.Kids[n].Short(200), "<absent>"})
+					*out = append(*out, Diff{Path: p, A: a.Kids[n].Short(200), B: "<absent>"})
 				} else {
-					*out = append(*out, Diff{p, "<absent>", b.Kids[n].Short(200)})
+					*out = append(*out, Diff{Path: p, A: "<absent>", B: b.Kids[n].Short(200)})
 				}
 			}
 		}
@@ -648,13 +738,13 @@ func (d *Differ) diff(a, b *Node, path string, out *[]Diff, limit int) {
 			case j >= len(b.Kids) || (i < len(a.Kids) && a.Names[i] < b.Names[j]):
 				p := path + "[" + a.Names[i] + "]"
 				if !d.masked(p) {
-					*out = append(*out, Diff{p, a.Kids[i].Short(200), "<absent>"})
+					*out = append(*out, Diff{Path: p, A: a.Kids[i].Short(200), B: "<absent>"})
 				}
 				i++
 			default:
 				p := path + "[" + b.Names[j] + "]"
 				if !d.masked(p) {
-					*out = append(*out, Diff{p, "<absent>", b.Kids[j].Short(200)})
+					*out = append(*out, Diff{Path: p, A: "<absent>", B: b.Kids[j].Short(200)})
 				}
 				j++
 			}
